@@ -6,7 +6,9 @@ import (
 	"github.com/influxdata/telegraf/plugins/parsers/influx"
 	"github.com/metrico/qryn/writer/model"
 	customErrors "github.com/metrico/qryn/writer/utils/errors"
+	"io"
 	"regexp"
+	"strings"
 	"time"
 )
 
@@ -38,7 +40,10 @@ type influxDec struct {
 }
 
 func (e *influxDec) Decode() error {
-	parser := influx.NewStreamParser(e.ctx.bodyReader)
+	// telegraf's stream parser never returns for a body whose last byte is a backslash in measurement position
+	// (e.g. the one-byte body `\`): it neither consumes it nor reports EOF.  A final newline ends that state
+	// with an ordinary parse error and changes nothing for well-formed line protocol.
+	parser := influx.NewStreamParser(io.MultiReader(e.ctx.bodyReader, strings.NewReader("\n")))
 	precision := e.ctx.ctx.Value("precision").(time.Duration)
 	parser.SetTimePrecision(precision)
 
